@@ -1,6 +1,12 @@
-HOOK_COMMITS = []
-IMPLEMENTED = {"C01", "C02", "C03", "C04", "C05", "C06", "C07", "C08", "C09", "C10", "C11", "C12", "C13", "C14", "C15", "C17", "C18", "C20"}
+HOOK_COMMITS = ["c57c4f1"]
+IMPLEMENTED = {"C01", "C02", "C03", "C04", "C05", "C06", "C07", "C08", "C09", "C10", "C11", "C12", "C13", "C14", "C15", "C16", "C17", "C18", "C20"}
 TABLE = {
+ "C16": {
+  "technique": "exhaustive pattern enumeration with a poison hook and under Miri; grammar-generated safe probe programs with the compiler as oracle (must be rejected) and must-compile control twins",
+  "text": "(a) Every arity 1..8 and every present/absent pattern of the n-ary sum/product, every own/partner combination of the terminal state read and Axle<0..8> construction are executed with inputs whose exact result identifies the contributing subset, once with the 0x7F poison hook compiled in and once as a plain program under Miri with the hook off. (b) 121 #![forbid(unsafe_code)] probe programs generated from a grammar (11 terminal accessors x 6 ways of ending or moving the device x 2 uses, plus attempts to build dangling Borrow/BorrowMut/Reference values or call unsafe constructors safely) are each compiled by rustc against the live rrtk: a probe that type-checks is a violation; each probe's control twin must compile. The 66 accessor x scenario combinations that do type-check are recorded as known findings.",
+  "note": "Part (b) is bounded to the probe grammar: it refutes, it cannot prove absence over all safe programs. rustc (stable, the repository's toolchain) and Miri (nightly) are trusted oracles.",
+  "engine": "rrtk-verif + rustc + cargo +nightly miri",
+ },
  "C17": {
   "technique": "model-based property testing of handle sequences in three differently-configured crates (configuration differential) + multi-thread stress with an exact-count oracle",
   "text": "Random and enumerated sequences of clone / to_dyn / borrow / borrow_mut / drop over all six Reference variants are interpreted against a one-shared-cell model with a drop counter; the same interpreter source is compiled into the harness, into a downstream crate built with features named alloc/std and into the same crate built without them, and all three must agree with the model (to_dyn! must not panic for the variants it lists). 2..8 threads perform read-yield-write increments under borrow_mut() of per-thread References over one Arc/static lock and the final count must be exact; the static_* macros are checked for aliasing per call site.",
